@@ -802,9 +802,48 @@ func (x *extractor) ev(e ast.Expr) *sval {
 	case *ast.CallExpr:
 		return x.evCall(e)
 	case *ast.SliceExpr:
-		return x.ev(e.X)
+		base := x.ev(e.X)
+		// x[:], x[0:], x[:len(x)] denote x; any other bounds denote a different
+		// (shorter, re-based) sequence, which must not be mistaken for x
+		whole := true
+		desc := ""
+		if e.Low != nil {
+			lo := x.ev(e.Low)
+			if c, ok := lo.n.isConst(); lo.k != svInt || !ok || c != 0 {
+				whole = false
+			}
+			desc += x.describeBound(lo)
+		}
+		desc += ":"
+		if e.High != nil {
+			hi := x.ev(e.High)
+			if hi.k != svInt || base.k != svVec || !hi.n.equal(x.lenOf(e.X, base)) {
+				whole = false
+			}
+			desc += x.describeBound(hi)
+		}
+		if e.Max != nil {
+			x.ev(e.Max)
+		}
+		if whole || base.k != svVec {
+			return base
+		}
+		n := *base
+		n.role = base.role + "[" + desc + "]"
+		n.n = nil
+		return &n
 	}
 	return &sval{}
+}
+
+func (x *extractor) describeBound(v *sval) string {
+	if v.k == svInt {
+		if c, ok := v.n.isConst(); ok {
+			return sprintf("%d", c)
+		}
+		return newNamer(x.sym).lin(v.n)
+	}
+	return "?"
 }
 
 func (x *extractor) isPointSlice(t types.Type) bool {
@@ -1048,6 +1087,9 @@ func (x *extractor) pointRole(pl *place) string {
 func (x *extractor) evBuiltin(name string, call *ast.CallExpr) *sval {
 	switch name {
 	case "len":
+		if n, ok := x.constLen(call.Args[0]); ok {
+			return &sval{k: svInt, n: konst(n)}
+		}
 		v := x.ev(call.Args[0])
 		if v.k == svVec {
 			return &sval{k: svInt, n: x.lenOf(call.Args[0], v)}
@@ -1855,6 +1897,55 @@ func (x *extractor) index(base *sval, baseE ast.Expr, idx *sval, pos token.Pos) 
 	return &sval{}
 }
 
+// constLen returns the number of elements of e when the type system fixes
+// it: an array, a pointer to an array, or a slice expression with constant
+// bounds of one.
+func (x *extractor) constLen(e ast.Expr) (int64, bool) {
+	e = unparen(e)
+	arrLen := func(e ast.Expr) (int64, bool) {
+		t := x.info.Types[e].Type
+		if t == nil {
+			return 0, false
+		}
+		if p, ok := t.Underlying().(*types.Pointer); ok {
+			t = p.Elem()
+		}
+		if arr, ok := t.Underlying().(*types.Array); ok {
+			return arr.Len(), true
+		}
+		return 0, false
+	}
+	if n, ok := arrLen(e); ok {
+		return n, true
+	}
+	if se, ok := e.(*ast.SliceExpr); ok && !se.Slice3 {
+		n, ok := arrLen(se.X)
+		if !ok {
+			return 0, false
+		}
+		lo, hi := int64(0), n
+		if se.Low != nil {
+			c, isC := x.constOf(se.Low)
+			if !isC {
+				return 0, false
+			}
+			lo = c
+		}
+		if se.High != nil {
+			c, isC := x.constOf(se.High)
+			if !isC {
+				return 0, false
+			}
+			hi = c
+		}
+		if lo != 0 {
+			return 0, false // indices of the range no longer coincide with those of the array
+		}
+		return hi - lo, true
+	}
+	return 0, false
+}
+
 // rangeStmt: `for k, v := range X` is the counted loop k = 0..len(X)-1 with v
 // = X[k] (the same node a three-clause loop over len(X) produces).
 func (x *extractor) rangeStmt(s *ast.RangeStmt) {
@@ -1863,26 +1954,17 @@ func (x *extractor) rangeStmt(s *ast.RangeStmt) {
 	atL := x.sym.atomLin(at)
 	var to *lin
 	role := over.role
-	switch {
-	case over.k == svVec:
+	if n, ok := x.constLen(s.X); ok {
+		// range over an array, or a constant slice of one (for i := range Ai[:7])
+		to = konst(n - 1)
+	} else if over.k == svVec {
 		if role == "" {
 			role = "?"
 		}
 		to = x.lenOf(s.X, over).addConst(-1)
-	default:
-		// range over a local array (for i := range Ai): its length is a constant
-		if t := x.info.Types[s.X].Type; t != nil {
-			if p, ok := t.Underlying().(*types.Pointer); ok {
-				t = p.Elem()
-			}
-			if arr, ok := t.Underlying().(*types.Array); ok {
-				to = konst(arr.Len() - 1)
-			}
-		}
-		if to == nil {
-			role = "?"
-			to = x.lenAtom(role).addConst(-1)
-		}
+	} else {
+		role = "?"
+		to = x.lenAtom(role).addConst(-1)
 	}
 	if id, ok := s.Key.(*ast.Ident); ok && id.Name != "_" {
 		if o := objOf(x.info, id); o != nil {
